@@ -231,6 +231,12 @@ def raw_def_call(s, op):
     return (callee_key(t["func"]), t, defs[0][0])
 
 
+def _only_lens(t):
+    """apart from constants and loop-carried earlier values of itself, the term is made of lengths of existing collections"""
+    z = rewrite(t, lambda y: ("const", "usize", 0) if y[0] == "call" and re.search(r"::len$", y[1]) else None)
+    return not contains(z, lambda q: q[0] in ("arg", "call", "item"))
+
+
 def index_from_own_range(coll, idx):
     """idx is drawn from 0..len(coll), enumerate over coll, position over coll"""
     if idx[0] == "phi":
@@ -488,6 +494,10 @@ def discharge(F, s, ctxinfo):
             return None
         if msg == "Overflow" and op == "Add":
             a, c = args[0], args[1]
+            if (t.get("a") or {}).get("ty", "") == "usize":
+                for x_, y_ in ((a, c), (c, a)):
+                    if x_[0] in ("lc", "loop", "carried", "phi") and contains(x_, lambda q: q[0] in ("loop", "carried", "lc")) and _only_lens(x_) and y_[0] == "call" and re.search(r"::len$", y_[1]) and innermost_loop(b, bb) is not None:
+                        return "running total of lengths of collections that exist together in memory (bounded by isize::MAX elements each, the address space in total)"
             if c[0] == "const" and isinstance(c[2], int) and c[2] <= 16:
                 ty = (t.get("a") or {}).get("ty", "")
                 if ty in ("usize", "u64", "u128", "i64", "isize"):
@@ -636,6 +646,23 @@ def discharge(F, s, ctxinfo):
                         return "capacity is the summed length of collections that already exist"
             if n[0] == "const":
                 return "constant capacity"
+            if n[0] in ("lc", "loop", "carried", "phi") and contains(n, lambda q: q[0] in ("loop", "carried", "lc")) and _only_lens(n):
+                # a running total built by a loop that only adds lengths of collections that already exist
+                try:
+                    accs = accumulations(b)
+                except Exception:
+                    accs = []
+                sums = []
+                for acc in accs:
+                    st_ = unmut_all(nosite(deep_strip(acc["step"])))
+                    if st_[0] == "bin" and st_[1] in ("Add", "AddWithOverflow") and acc["acc"] in (st_[2], st_[3]):
+                        other = st_[3] if st_[2] == acc["acc"] else st_[2]
+                        if other[0] == "call" and re.search(r"::len$", other[1]) and acc["seed"] == ("const", "usize", 0):
+                            sums.append(acc)
+                        else:
+                            sums.append(None)
+                if sums and all(x is not None for x in sums):
+                    return "capacity is a running total of the lengths of collections that already exist (they fit in memory together)"
             return None
         if what in ("std::vec::Vec::<T, A>::remove", "std::vec::Vec::<T, A>::swap_remove"):
             i_ = args[1]
